@@ -425,6 +425,22 @@ func addVars(out *[]*program) {
 		defs: []string{"(defvar *@v1* 1)", "(defun @f1 () *@v1*)", "(defun @f2 (n) (if t (setq *@v1* n) 0))"},
 		alts: []string{"", "(defun @f1 () (if t (* 10 *@v1*) 0))", ""},
 		main: "(list (@f1) (@f2 (+ (@f1) 1)) (@f1))"})
+	// constants whose value is not self-evaluating (a list, a symbol naming a variable), a number for contrast: a
+	// reference to the constant as a call argument must yield the VALUE however and whenever the call was compiled
+	for _, kc := range [][3]string{{"list", "'(north south east)", "(+ x (length +@k1+))"},
+		{"symbol", "'*@v1*", "(if (eq +@k1+ '*@v1*) (+ x 1) (+ x 100000))"},
+		{"number", "7", "(+ x +@k1+)"},
+		{"list-elt", "'(*@v1* 2)", "(if (eq (first +@k1+) '*@v1*) (+ x (length +@k1+)) (+ x 100000))"}} {
+		for _, cn := range []string{"body", "if", "letinit"} {
+			c := ctxByName(cn)
+			*out = append(*out, &program{fam: "var", id: "var:constant:" + kc[0] + ":" + cn, feats: []string{"defvar-read"},
+				defs: []string{"(defvar *@v1* 99)", "(defconstant +@k1+ " + kc[1] + ")",
+					"(defun @f1 (x) " + kc[2] + ")",
+					"(defun @f2 (y) " + c.wrap("(@f1 (* y 2))") + ")"},
+				alts: []string{"", "", "(defun @f1 (x) (+ 50000 " + kc[2] + "))", ""},
+				main: "(@f2 3)"})
+		}
+	}
 	// state: a global counter bumped by the main expression
 	for _, kind := range []string{"defvar", "defparameter"} {
 		for _, cn := range []string{"letinit", "if"} {
